@@ -44,6 +44,10 @@ OVERLAYS = [
      'edits': [(MOLECULE, "                cut_site = self.get_cut_site()\n                if cut_site is not None:\n                    read.set_tag('DS', cut_site[1])\n", "                read.set_tag('DS', self.get_cut_site()[1])\n")]},
     {'name': 'consensus qualities taken from another list', 'kind': 'break', 'rules': ['C15-R4'],
      'edits': [(MOLECULE, "phred_scores= array('B', np.concatenate(partial_phred)),", "phred_scores= array('B', np.concatenate(partial_MD)),")]},
+    {'name': 'likelihood normalised with the number of bases instead of the observations of the base', 'kind': 'break', 'rules': ['C15-R5'],
+     'edits': [(SEQUTILS, "np.power(0.25, len(v)-1)", "np.power(0.25, len(probs)-1)")]},
+    {'name': 'MD letters not upper-cased', 'kind': 'break', 'rules': ['C15-R5'],
+     'edits': [(SEQUTILS, "zip(reference_seq.upper(), query_seq)", "zip(reference_seq, query_seq)")]},
     # keep
     {'name': 'keep: from numpy import prod', 'kind': 'keep',
      'edits': [(SEQUTILS, "np.prod(v)/np.power", "numpy_prod(v)/np.power"), (SEQUTILS, "def base_probabilities_to_likelihood(probs: dict):", "from numpy import prod as numpy_prod\n\n\ndef base_probabilities_to_likelihood(probs: dict):")]},
